@@ -84,27 +84,39 @@ def run(ctx: Ctx) -> None:
         (td / "plug" / "sub" / "__init__.py").write_text("")
         make_module(td / "plug" / "sub" / "z.py", "PLG", 102, "union", enabled=False)
         make_module(td / "solo.py", "SOL", 100, "two")
+        # namespace packages: plain directories of check modules, no __init__.py (their __file__ is None)
+        (td / "nsa").mkdir()
+        make_module(td / "nsa" / "m.py", "NSA", 100, "two")
+        (td / "nsb").mkdir()
+        make_module(td / "nsb" / "m.py", "NSB", 100, "two")
         (td / "t.py").write_text("a = 1\nb = a\nc = 'x'\n")
         log = td / "calls.log"
         env = {"C16_LOG": str(log), "PYTHONPATH": f"{td}:{L.ENV['PYTHONPATH']}"}
-        names = {"plug": ["plug.sub.z", "plug.x", "plug.y"], "plug.x": None, "plug.sub": ["plug.sub.z"], "solo": None, "refurb.checks": "builtin"}
+        names = {"plug": ["plug.sub.z", "plug.x", "plug.y"], "plug.x": None, "plug.sub": ["plug.sub.z"], "solo": None, "refurb.checks": "builtin", "nsa": ["nsa.m"], "nsb": ["nsb.m"]}
         tl = list(names)
         target_lists = [[]] + [[a] for a in tl] + [[a, b2] for a in tl for b2 in tl]
         if ctx.tier == "thorough":
             target_lists += [[a, b2, c] for a in tl for b2 in tl for c in tl]
         else:
             target_lists += [[ctx.rng.choice(tl) for _ in range(3)] for _ in range(10)]
-        expected_per_module = {"plug.x": ("PLG100", ["IntExpr"]), "plug.y": ("PLG101", ["NameExpr"]), "plug.sub.z": ("PLG102", ["IntExpr", "StrExpr"]), "solo": ("SOL100", ["IntExpr"])}
+        expected_per_module = {"plug.x": ("PLG100", ["IntExpr"]), "plug.y": ("PLG101", ["NameExpr"]), "plug.sub.z": ("PLG102", ["IntExpr", "StrExpr"]), "solo": ("SOL100", ["IntExpr"]), "nsa.m": ("NSA100", ["IntExpr"]), "nsb.m": ("NSB100", ["IntExpr"])}
         node_counts = {"IntExpr": 1, "NameExpr": 4, "StrExpr": 1}
         model_rows = []
-        for tlist in target_lists[: ctx.budget(28, 400)]:
+        from concurrent.futures import ThreadPoolExecutor
+        todo = target_lists[: ctx.budget(70, 500)]
+
+        def one(job):
+            k, tlist = job
             argv = ["t.py", "--enable-all", "--quiet"]
             for t in tlist:
                 argv += ["--load", t]
-            if log.exists():
-                log.unlink()
-            rc, out, err = L.cli(argv, cwd=str(td), env_extra=env)
-            calls = [json.loads(l) for l in log.read_text().splitlines()] if log.exists() else []
+            lg = td / f"calls_{k}.log"
+            rc, out, err = L.cli(argv, cwd=str(td), env_extra=dict(env, C16_LOG=str(lg)))
+            calls = [json.loads(l) for l in lg.read_text().splitlines()] if lg.exists() else []
+            return argv, rc, out, err, calls
+        with ThreadPoolExecutor(max_workers=12) as ex:
+            results = list(ex.map(one, enumerate(todo)))
+        for tlist, (argv, rc, out, err, calls) in zip(todo, results):
             loaded = set()
             for t in tlist:
                 if names[t] == "builtin":
@@ -122,11 +134,6 @@ def run(ctx: Ctx) -> None:
                 if n_calls != want or n_diag != want:
                     ctx.report("load:multiplicity", f"--load {tlist}: check {code} of {mod} was called {n_calls} times and reported {n_diag} diagnostics, expected {want}",
                                {"argv": argv, "module": mod, "calls": n_calls, "diagnostics": n_diag, "expected": want})
-            # model row: order of first appearance of plugin modules in the log = yield order
-            order = []
-            for c in calls:
-                if c[0] not in order:
-                    order.append(c[0])
             model_rows.append((tlist, sorted(loaded)))
         # ---- correspondence of get_modules itself (in-process, import names)
         if b.ok:
@@ -157,7 +164,7 @@ def run(ctx: Ctx) -> None:
                                (err or "")[-300:] + (vals[0] if vals else ""))
             finally:
                 sys.path.remove(str(td))
-                for k in [k for k in sys.modules if k.split(".")[0] in ("plug", "solo")]:
+                for k in [k for k in sys.modules if k.split(".")[0] in ("plug", "solo", "nsa", "nsb")]:
                     del sys.modules[k]
         selections(ctx, td, env, log)
         signatures(ctx, td, env, log)
